@@ -6,8 +6,9 @@
 (* the contract operators of MergerContract for every overlap pattern of   *)
 (* small sources.                                                          *)
 (***************************************************************************)
-EXTENDS MergerContract
-CONSTANTS NSrc, Keys            \* model checking: number of sources, key universe (integers)
+EXTENDS MergerContract, TLC
+CONSTANTS NSrc, Keys,           \* model checking: number of sources, key universe (integers)
+          TieBySourceIndex     \* TRUE: equal keys pop in source order (as coded); FALSE: reversed (must fail)
 
 VARIABLES
     srcs,      \* the sources (chosen in Init: every tuple of ascending sequences over Keys)
@@ -37,7 +38,7 @@ Seed ==
 
 HeadKey(i) == srcs[i][head[i]]
 \* heap order: smallest (key, source index) first
-Before(i, j) == HeadKey(i) < HeadKey(j) \/ (HeadKey(i) = HeadKey(j) /\ i < j)
+Before(i, j) == HeadKey(i) < HeadKey(j) \/ (HeadKey(i) = HeadKey(j) /\ (IF TieBySourceIndex THEN i < j ELSE i > j))
 
 \* MergerIter::next
 NextOut ==
@@ -45,7 +46,8 @@ NextOut ==
     /\ LET first == CHOOSE i \in heap : \A j \in heap \ {i} : Before(i, j)
            k == HeadKey(first)
            same == {i \in heap : HeadKey(i) = k}            \* popped while the peeked key is equal
-           order == SortedSeq(same)                         \* pops come out in (key, index) order
+           order == IF TieBySourceIndex THEN SortedSeq(same)   \* pops come out in (key, index) order
+                    ELSE [x \in 1..Cardinality(same) |-> SortedSeq(same)[Cardinality(same) - x + 1]]
            vals == [x \in 1..Len(order) |-> <<order[x], head[order[x]]>>] IN
        /\ calls' = Append(calls, [k |-> k, vals |-> vals])  \* merge is called for every key
        /\ out' = Append(out, [k |-> k, v |-> vals])
@@ -72,4 +74,6 @@ OutPrefixOk ==
         /\ out[x].v = Expected(SrcTuple, u[x], "concat")
         /\ CallsOk(SrcTuple, u[x], SelectSeq(calls, LAMBDA c : c.k = u[x]))
 DoneComplete == phase = "done" => Len(out) = Cardinality(AllKeys(SrcTuple))
+\* test generation: the sources of a completed run and the output the model predicts
+EmitRun == phase = "done" => PrintT("MRUN " \o ToString(<<SrcTuple, [x \in 1..Len(out) |-> <<out[x].k, out[x].v>>]>>))
 =============================================================================
